@@ -29,7 +29,7 @@ and every sequence of sources:
   `unknown_short_option`, `argument_to_flag`, `missing_argument_long`, `verifyConfig_spec`
 * allocation layer of `set_option` (`do_alloc`, `valloc[]`, block reuse across config files; `Alloc.lean`): `alloc_store_exact`,
   `alloc_set_option_refines`, `alloc_valloc_after_set`, `alloc_source_refines`, `alloc_cfg_text_args`, `alloc_history_refines`,
-  `alloc_created_history`, `alloc_reuse_is_fresh`
+  `alloc_created_history`, `alloc_reuse_is_fresh`, `history_after_reuse_is_history_on_fresh_object`
 * tables that are NOT well formed (no hypothesis on the table): `create_on_any_table`, `create_never_crashes`,
   `create_does_not_check_lists`, `unknown_name_in_toggle_list`, `unknown_name_in_required_list`, `set_option_crash_site_unreachable`
 * text produced from table / configuration: `displayHelp_fails_iff`, `displayHelp_output_documented`,
@@ -660,6 +660,10 @@ theorem alloc_reuse_is_fresh {opts : List Opt} {c0 c : GC} (hc : createC opts = 
   · rw [ho, hc] at h; exact (Option.some.inj h).symm
   · rw [ho, hc] at h; cases h
 
+
+/-- … so any history of sources after `Reuse` is that history on a fresh object, statuses and final bytes alike -/
+theorem history_after_reuse_is_history_on_fresh_object {opts : List Opt} {c0 c : GC} (hc : createC opts = some c0) (ho : c.opts = opts)
+    (ss : List Src) : runAllC (reuseC c) ss = runAllC c0 ss := by rw [alloc_reuse_is_fresh hc ho]
 
 /-- the allocation layer on the demo table: two config files give `-n` a longer, then a shorter value; the block (4 bytes)
     is reused, the stored string is exactly the second value, the tail of the first survives beyond the terminator -/
